@@ -172,7 +172,7 @@ def engine_s_main(tier, seed):
     for text, sched in vs:
       violations.append(dict(text=text, kwargs=dict(tier=tier, scenario=idx,
                                                     schedule=','.join(map(str, sched)),
-                                                    shared='|'.join(sorted(scen.shared)))))
+                                                    shared='|'.join(sorted(getattr(scen, 'shared', []))))))
   cov['solver_s'] = round(cov['solver_s'], 2)
   cov['wall_s'] = round(time.time() - t0, 1)
   return dict(coverage=cov, violations=violations, infra=infra,
